@@ -85,6 +85,28 @@ def batch(drv, env, cmds, per_cmd_timeout=5.0, label=""):
     return out
 
 
+def unescape(s):
+    """what -e makes of a literal: backslash + a..v maps to the control characters the tools document, any other escaped byte stands for itself, a
+    trailing backslash stays"""
+    m = "\a\bcd\x1b\fghijklm\nopq\rs\tu\v"
+    out, i = [], 0
+    if "\\" not in s:
+        return s
+    while i < len(s):
+        c = s[i]
+        if c != "\\":
+            out.append(c)
+            i += 1
+        elif i + 1 >= len(s):
+            out.append("\\")
+            i += 1
+        else:
+            n = s[i + 1]
+            out.append(m[ord(n) - 97] if "a" <= n <= "v" else n)
+            i += 2
+    return "".join(out)
+
+
 def asan_key(err):
     """canonical key of a sanitizer report / abort: kind + first frame inside the project"""
     kind = "crash"
@@ -273,6 +295,24 @@ def main(tier):
             jobs.append(("dsort", ["-i", s], "b 2012-03-06\n" + s + "\na 2011-01-01\n", "input format"))
             jobs.append(("dzone", ["-f", s, "Europe/Berlin", "2012-03-06T10:11:12"], None, "format"))
             jobs.append(("strptime", ["-i", s, "-f", s, "2012-03-06"], None, "format"))
+        # backslash escapes (-e): formats ending in a backslash or in an incomplete escape
+        for s in ["abc\\", "\\", "%F\\", "a\\tb\\", "\\\\\\", "x\\q\\", "%Y\\n%m\\"] + [h for h in hostile[:60]]:
+            jobs.append(("dconv", ["-e", "-f", s + ("\\" if not s.endswith("\\") else ""), "2012-03-06T10:11:12"], None, "escaped format"))
+            jobs.append(("dadd", ["-e", "-f", s, "2012-03-06", "+1d"], None, "escaped format"))
+            jobs.append(("dseq", ["-e", "-f", s, "2012-03-06", "2012-03-07"], None, "escaped format"))
+        for s in ["abc\\", "\\", "a\\tb\\", "\\\\\\", "x\\q\\", "a\\nb", "\\a\\b\\e\\f\\r\\v", "tab\\t", "q\\"]:
+            jobs.append(("dconv", ["-e", "-f", s, "2012-03-06T10:11:12"], None, "escaped literal"))
+        # zone specifications: long but valid paths to a zone file, hostile names
+        for n in (20, 40, 47, 48, 49, 60, 100, 101, 110, 115, 116, 117, 118, 200, 1000):
+            z = "/usr/share/zoneinfo/" + "./" * n + "Europe/Berlin"
+            jobs.append(("dzone", [z, "2012-03-06T10:11:12"], None, "zone name"))
+            jobs.append(("dzone", ["--next", z, "2012-03-06T10:11:12"], None, "zone name"))
+            jobs.append(("dzone", ["--prev", z, "Asia/Tokyo", "2012-03-06T10:11:12"], None, "zone name"))
+            jobs.append(("dconv", ["--zone", z, "2012-03-06T10:11:12"], None, "zone name"))
+            jobs.append(("dadd", ["--from-zone", z, "2012-03-06T10:11:12", "+1h"], None, "zone name"))
+        for s in hostile[:: 9]:
+            jobs.append(("dconv", ["--zone", s, "2012-03-06T10:11:12"], None, "zone name"))
+            jobs.append(("dzone", ["--", s, "2012-03-06T10:11:12"], None, "zone name"))
         # stream lines: counts around the 16384-line limit of one chunk, long lines, missing final newline ("stream line" of the property)
         for nlines in (16383, 16384, 16385, 16386, 32769):
             for body, tail in (("2012-03-06", "\n"), ("2012-03-06 x", ""), ("x" * 70, "\n")):
@@ -297,17 +337,25 @@ def main(tier):
                 rc, err, outlen = p.returncode, p.stderr.decode("latin-1", "replace"), len(p.stdout)
             except subprocess.TimeoutExpired:
                 rc, err, outlen = 124, "", 0
+                return tool, argv, stdin, role, rc, err, b""
             except (ValueError, OSError) as x:
                 return None
-            return tool, argv, stdin, role, rc, err, outlen
+            return tool, argv, stdin, role, rc, err, (p.stdout if rc != 124 else b"")
         nrun = 0
         with ThreadPoolExecutor(max_workers=core.NCPU) as ex:
             for res in ex.map(tool_job, jobs):
                 if res is None:
                     continue
-                tool, argv, stdin, role, rc, err, outlen = res
+                tool, argv, stdin, role, rc, err, out = res
                 nrun += 1
                 bad = rc == 99 or rc == 124 or rc < 0 or rc >= 128
+                if role == "escaped literal" and not bad:
+                    # the argv block is contiguous stack memory: a read past the terminator of the format is not a sanitizer event
+                    # there, but it shows in the output, which must be the unescaped literal alone
+                    want = unescape(argv[2]) + "\n"
+                    if out != want.encode("latin-1"):
+                        rep.disagree("%s %s: output is not the unescaped literal (format read beyond its end?)" % (tool, role),
+                                     {"argv": [repr(a) for a in argv], "stdout": repr(out[:80]), "want": repr(want), "rc": rc})
                 if bad:
                     key = "%s %s: %s" % (tool, role, "timeout" if rc == 124 else asan_key(err))
                     rep.disagree(key, {"tool": tool, "argv": [repr(a)[:150] for a in argv], "stdin": repr(stdin)[:150] if stdin else None, "rc": rc, "report": err[-1500:]})
